@@ -22,7 +22,7 @@ RULE = ("Random event dictionaries: every subset/order of data/event/id/retry; d
         "(event dict, charset).")
 RULE += ' Also: the same dict object yielded repeatedly, re-iterable producers served twice by one response object, data lines of 70 000 characters, a WSGI client that takes several ping intervals per chunk.'
 ASSUMPTIONS = [
-    "data is compared modulo one trailing line terminator (the statement does not say whether 'a\\n' has one or two lines)",
+    "data that ends in a line break may arrive with or without that last break (the statement does not say whether 'a\\n' has one or two lines); never with more",
     "events without a data key dispatch nothing by the standard; for them only the id/retry side effects and 'no event fired' are checked",
     "charsets are ASCII-compatible and BOM-less (field names, separators and pings are ASCII bytes on the wire); ids contain no NUL",
 ]
@@ -115,7 +115,8 @@ def judge_stream(ctx, yielded, wire_text, case, where):
         ctx.violation(f"{key}|{where}", case, f"expected {len(expected)} events, parser dispatched {len(p.events)}: {p.events!r}\nwire={wire_text!r}")
         return
     for got, exp in zip(p.events, expected):
-        if got["data"] != exp["data"] and got["data"] + "\n" != exp["data"] and got["data"] != exp["data"] + "\n":
+        if got["data"] != exp["data"] and not (exp["data"].endswith("\n") and got["data"] == exp["data"][:-1]):
+            # (a final line break may count as ending the last line or as starting an empty one: 'a\n' -> 'a\n' or 'a'; never more than was yielded)
             ctx.violation(f"data-differs|{classify_data(exp['_orig']['data'])}|{where}", case,
                           f"yielded data {exp['_orig']['data']!r} -> parser data {got['data']!r}; wire={wire_text!r}")
             return
